@@ -277,7 +277,7 @@ theorem ack_encode (typ flags id rc : Nat) :
 
 /-- PUBACK / PUBREC / PUBCOMP are five bytes long: fixed header, remaining length 3, identifier,
 reason code. -/
-theorem encodeControl_ack (a : ControlAction) (h : a.typ ≠ MT_PingReq) :
+theorem sf_encodeControl_ack (a : ControlAction) (h : a.typ ≠ MT_PingReq) :
     ∃ bs, encodeControl a = .ok bs ∧ bs.length = 5 := by
   unfold encodeControl
   simp only [h, if_false]
@@ -318,7 +318,7 @@ theorem handlePacket_publish_q1_tooLarge (d : SessionData) (r : Runtime) (topic 
     (retain dup : Bool) (hid : id ≠ 0) (m : Nat) (hm : r.maximumPacketSize = some m) (hlt : m < 5) :
     handlePacket d r (.publish topic (some id) props payload retain 1 dup) = (d, r, .error .packetTooLarge) := by
   have hc : ∀ a : ControlAction, a.typ ≠ MT_PingReq → checkSize r (encodeControl a) = .error .packetTooLarge :=
-    fun a ha => ((checkSize_ack r _ (encodeControl_ack a ha)).1).2 ⟨m, hm, hlt⟩
+    fun a ha => ((checkSize_ack r _ (sf_encodeControl_ack a ha)).1).2 ⟨m, hm, hlt⟩
   simp only [handlePacket, hid, if_false, if_true, show (1 = 0) = False by simp]
   rw [hc _ (by simp [MT_PubAck, MT_PubRec, MT_PubComp, MT_PingReq])]
 
@@ -329,7 +329,7 @@ theorem handlePacket_publish_q2_tooLarge (d : SessionData) (r : Runtime) (topic 
     (handlePacket d r (.publish topic (some id) props payload retain 2 dup)).2.2 = .error .packetTooLarge ∧
     (handlePacket d r (.publish topic (some id) props payload retain 2 dup)).1.outbound = d.outbound := by
   have hc : ∀ a : ControlAction, a.typ ≠ MT_PingReq → checkSize r (encodeControl a) = .error .packetTooLarge :=
-    fun a ha => ((checkSize_ack r _ (encodeControl_ack a ha)).1).2 ⟨m, hm, hlt⟩
+    fun a ha => ((checkSize_ack r _ (sf_encodeControl_ack a ha)).1).2 ⟨m, hm, hlt⟩
   simp only [handlePacket, hid, if_false, show (2 = 0) = False by simp, show (2 = 1) = False by simp]
   rw [hc _ (by simp [MT_PubAck, MT_PubRec, MT_PubComp, MT_PingReq])]
   exact ⟨rfl, rfl⟩
@@ -340,7 +340,7 @@ theorem handlePacket_pubRel_tooLarge (d : SessionData) (r : Runtime) (id : Nat) 
     (handlePacket d r (.pubRel id rs)).2.2 = .error .packetTooLarge ∧
     (handlePacket d r (.pubRel id rs)).1.outbound = d.outbound := by
   have hc : ∀ a : ControlAction, a.typ ≠ MT_PingReq → checkSize r (encodeControl a) = .error .packetTooLarge :=
-    fun a ha => ((checkSize_ack r _ (encodeControl_ack a ha)).1).2 ⟨m, hm, hlt⟩
+    fun a ha => ((checkSize_ack r _ (sf_encodeControl_ack a ha)).1).2 ⟨m, hm, hlt⟩
   simp only [handlePacket, hid, if_false]
   rw [hc _ (by simp [MT_PubAck, MT_PubRec, MT_PubComp, MT_PingReq])]
   exact ⟨rfl, rfl⟩
@@ -371,12 +371,12 @@ theorem handlePacket_tooLarge_only (d : SessionData) (r : Runtime) (p : Recv)
   have hc : ∀ (r' : Runtime) (a : ControlAction), r'.maximumPacketSize = r.maximumPacketSize → a.typ ≠ MT_PingReq →
       checkSize r' (encodeControl a) = .error .packetTooLarge → ∃ m, r.maximumPacketSize = some m ∧ m < 5 := by
     intro r' a hr' ha hh
-    have := ((checkSize_ack r' _ (encodeControl_ack a ha)).1).1 hh
+    have := ((checkSize_ack r' _ (sf_encodeControl_ack a ha)).1).1 hh
     rw [hr'] at this; exact this
   have hc2 : ∀ (r' : Runtime) (a : ControlAction) e, r'.maximumPacketSize = r.maximumPacketSize → a.typ ≠ MT_PingReq →
       checkSize r' (encodeControl a) = .error e → e = .packetTooLarge := by
     intro r' a e _ ha hh
-    rcases (checkSize_ack r' _ (encodeControl_ack a ha)).2 with h1 | h1
+    rcases (checkSize_ack r' _ (sf_encodeControl_ack a ha)).2 with h1 | h1
     · rw [h1] at hh; cases hh
     · rw [h1] at hh; cases hh; rfl
   cases p with
@@ -1239,11 +1239,6 @@ open Gen World Outbound
 
 /-! ### The order in which `next_step` hands out packets -/
 
-def Outbound.Step.state : Outbound.Step → SendState
-  | .control _ s => s
-  | .release _ _ s => s
-  | .retained _ _ _ s => s
-
 theorem sent_of_neither (st : SendState) (h1 : st.isFresh = false) (h2 : st.isInProgress = false) : st = .sent := by
   cases st with
   | write n => cases n <;> simp [SendState.isFresh, SendState.isInProgress] at h1 h2
@@ -1287,7 +1282,7 @@ theorem nextStepPrio_state (o : Outbound) (b : Bool) (step : Outbound.Step) (h :
   · rw [hn] at h; cases h
 
 /-- A completely sent entry is never handed out again (until replay is armed). -/
-theorem nextStep_not_sent (o : Outbound) (step : Outbound.Step) (h : o.nextStep = some step) : step.state ≠ .sent := by
+theorem sf_nextStep_not_sent (o : Outbound) (step : Outbound.Step) (h : o.nextStep = some step) : step.state ≠ .sent := by
   unfold nextStep at h
   intro hs
   split at h
